@@ -71,15 +71,23 @@ def catches(names, exc):
     return False
 
 
-def handler_denies(h):
-    """No raise in the handler; every return is a falsy constant."""
+def handler_denies(h, prog=None, f=None, region=None):
+    """No raise in the handler; every return is a falsy constant - or the
+    result of another function of the evaluation region (whose own sites
+    are covered in their own right)."""
     for n in ast.walk(h):
         if isinstance(n, ast.Raise):
             return False, 're-raises'
         if isinstance(n, ast.Return):
-            if not (n.value is None or (isinstance(n.value, ast.Constant)
-                                        and not n.value.value)):
-                return False, 'returns %s' % U(n.value)
+            if n.value is None or (isinstance(n.value, ast.Constant)
+                                   and not n.value.value):
+                continue
+            if prog is not None and isinstance(n.value, ast.Call):
+                g = prog.callee_of(f, n.value)
+                if g is not None and region is not None and \
+                        g.qual in region:
+                    continue
+            return False, 'returns %s' % U(n.value)
     return True, ''
 
 
@@ -313,6 +321,9 @@ def sites_of(prog, f, miss_raises, proto=frozenset()):
             elif isinstance(base, ast.Name) and base.id in proto:
                 out.append((n, 'protocol mapping subscript %s' % U(n)[:50],
                             {'builtin:KeyError': ORDINARY}))
+            elif isinstance(base, ast.Name) and prog.const_expr(
+                    f.module, base, names_ok=True) is not None:
+                continue            # a lookup table of the module
             elif isinstance(base, ast.Name) and base.id != 'self':
                 out.append((n, 'subscript of a JSON value %s' % U(n)[:50],
                             {'builtin:KeyError': ORDINARY,
@@ -369,7 +380,7 @@ def check(ctx):
                 if not hit:
                     uncovered.append((exc, klass))
                     continue
-                ok, why = handler_denies(hit[0][0])
+                ok, why = handler_denies(hit[0][0], prog, f, region)
                 if not ok:
                     bad_handler = (hit[0][0], why)
             if uncovered:
